@@ -3,6 +3,7 @@ package props
 import (
 	"fmt"
 	"go/constant"
+	"go/token"
 	"go/types"
 	"strings"
 
@@ -334,6 +335,64 @@ func ruleC15Copy(e *Env) {
 				// a fresh allocation (in the constructor or a helper of it) is a filter still being built
 				if _, fresh := base.(*ssa.Alloc); !fresh && bad == "" {
 					bad = fmt.Sprintf("%s writes a field of a filter outside its construction (%s)", flow.FnName(fn), e.posOf(st))
+				}
+			}
+			// a pointer into a finished filter (&d.from) may only be read through: handed to a function, stored, or taken
+			// further (&d.from.year) it is a way to change the bounds after the filter was built
+			for _, in := range b.Instrs {
+				fa, ok := in.(*ssa.FieldAddr)
+				if !ok || !isFilterStruct(fa.X.Type()) {
+					continue
+				}
+				if _, fresh := fa.X.(*ssa.Alloc); fresh {
+					continue
+				}
+				for _, r := range *fa.Referrers() {
+					switch x := r.(type) {
+					case *ssa.DebugRef:
+					case *ssa.UnOp:
+						if x.Op != token.MUL && bad == "" {
+							bad = fmt.Sprintf("%s uses the address of a filter's field other than to read it (%s)", flow.FnName(fn), e.posOf(x))
+						}
+					case *ssa.Store:
+						// counted above when it is the address stored to
+						if x.Val == ssa.Value(fa) && bad == "" {
+							bad = fmt.Sprintf("%s keeps a pointer into a filter (%s)", flow.FnName(fn), e.posOf(x))
+						}
+					default:
+						if bad == "" {
+							bad = fmt.Sprintf("%s hands out a pointer into a filter (%s): what receives it can change the bound", flow.FnName(fn), e.posOf(r))
+						}
+					}
+				}
+			}
+		}
+	}
+	// every concrete type FilterFromTo hands out is judged by the field rule above (a generic or differently named type
+	// is not found by name: it is read off the constructor's returns)
+	if ctor := e.F("date", "FilterFromTo"); ctor != nil {
+		for _, r := range flow.Returns(ctor) {
+			if len(r.Results) == 0 {
+				continue
+			}
+			mi, ok := r.Results[0].(*ssa.MakeInterface)
+			if !ok {
+				continue
+			}
+			t := mi.X.Type()
+			if p, ok := t.Underlying().(*types.Pointer); ok {
+				t = p.Elem()
+			}
+			st, ok := t.Underlying().(*types.Struct)
+			if !ok {
+				if bad == "" {
+					bad = fmt.Sprintf("FilterFromTo returns a %s, not a struct of Date values", t)
+				}
+				continue
+			}
+			for i := 0; i < st.NumFields(); i++ {
+				if !types.Identical(st.Field(i).Type(), dateT.Type()) && bad == "" {
+					bad = fmt.Sprintf("FilterFromTo returns a %s whose field %s is a %s, not a Date value: a later change of the caller's variable can alter the filter", t, st.Field(i).Name(), st.Field(i).Type())
 				}
 			}
 		}
